@@ -10,7 +10,7 @@ TRUSTED_EXTRA = ["standard-library axioms of the classical real numbers used by 
                  "seams: link values and the variational parameters omega_star / omega_dagger are read from the implementation (private methods _get_omega_star, _get_omega_dagger, _lower_bound_integrals, k_func) and converted exactly; ln cosh / tanh of them are computed in float64 by the harness",
                  "the step from the pointwise bound (theorem) to the expectation is monotonicity of the Gaussian integral: not formalised (no multivariate integration library); quadrature oracle"]
 WIDEN_MAX = 60          # extra thorough-generator cases when the anchored sources have drifted (harness/drift.py)
-PROPS_FILE = ["props/C17.v", "trunc/C17R.v", "trunc/C17M.v"]
+PROPS_FILE = ["props/C17.v", "trunc/C17R.v", "trunc/C17M.v", "props/GI6.v"]
 IMPORTS = "HetBound"
 RULE = ("cases = four links {exp, cosh-1, step, rectified linear} x Dx in 1..2, Dy in 1..2, Da in {Dy, Dy+1}, Dk in 1..2, "
         "non-zero offsets, weight scales {1, 1e-1, 1e-2, 0}; half of the objects built with another A resp. (M, W) then obj.replace(...); (a) condition_on_x at 3 points; (b) "
